@@ -3,7 +3,7 @@
     Core Liquid Fragment, which the correspondence run ties to /repo).
     The theorems state the documented laws of that semantics. *)
 From LQ Require Import Core.Render Proofs.Value_proofs Proofs.Render_proofs Proofs.Render_buffer Proofs.Render_fuel Proofs.CrossModel.
-From LQ Require Import Proofs.Render_lambda Proofs.Value_decimal Proofs.CrossModel_decimal Proofs.CrossModel_values.
+From LQ Require Import Proofs.Render_control Proofs.Render_lambda Proofs.Value_decimal Proofs.CrossModel_decimal Proofs.CrossModel_values.
 From LQ Require Kernels.FVal Kernels.FiltersStr Kernels.FiltersSeq Kernels.ObjAccess Kernels.Undefined Kernels.Json Kernels.Markup Kernels.Printer.
 
 (** Sequencing is compositional: rendering [l1 ++ l2] is rendering [l1] and
@@ -207,3 +207,58 @@ Proof.
         (conj prepend_models_agree (conj first_models_agree (conj last_models_agree join_models_agree)))))).
 Qed.
 Print Assumptions c01_filters_models_agree.
+
+(** if / elsif / else executes exactly the branch its conditions dictate: the
+    first alternative whose condition is truthy renders, whatever follows it
+    (later alternatives, the else block) is irrelevant ... *)
+Theorem c01_if_first_truthy_branch_renders : forall g ev rec els pre ce body post c b w,
+  all_falsy ev pre c -> ev c ce = EOk w -> is_truthy w = true ->
+  if_alts g ev rec els (pre ++ (ce, body) :: post) c b = block g rec body c b.
+Proof. exact if_alts_first_truthy. Qed.
+Print Assumptions c01_if_first_truthy_branch_renders.
+
+Theorem c01_if_rest_irrelevant_after_truthy : forall g ev rec els els' pre ce body post post' c b w,
+  all_falsy ev pre c -> ev c ce = EOk w -> is_truthy w = true ->
+  if_alts g ev rec els (pre ++ (ce, body) :: post) c b =
+  if_alts g ev rec els' (pre ++ (ce, body) :: post') c b.
+Proof. exact if_alts_rest_irrelevant. Qed.
+Print Assumptions c01_if_rest_irrelevant_after_truthy.
+
+(** ... with no truthy condition exactly the else block renders ... *)
+Theorem c01_if_no_truthy_renders_else : forall g ev rec els l c b,
+  all_falsy ev l c -> if_alts g ev rec els l c b = oblock g rec els c b.
+Proof. exact if_alts_none_truthy. Qed.
+Print Assumptions c01_if_no_truthy_renders_else.
+
+(** ... and a condition that fails stops the chain there, rendering nothing. *)
+Theorem c01_if_error_stops_chain : forall g ev rec els pre ce body post c b r,
+  all_falsy ev pre c -> ev c ce = r -> (forall w, r <> EOk w) ->
+  if_alts g ev rec els (pre ++ (ce, body) :: post) c b = mk (of_eres_status r) c b.
+Proof. exact if_alts_error_stops. Qed.
+Print Assumptions c01_if_error_stops_chain.
+
+(** for: `break` ends the loop normally and the items after the current one are
+    never looked at ... *)
+Theorem c01_break_ignores_remaining_items : forall g rec x key len parent body it its its' i c b,
+  st (block g rec body (loop_ctx x key len parent it i c) b) = SBrk ->
+  for_iter g rec x key len parent body (it :: its) i c b =
+  for_iter g rec x key len parent body (it :: its') i c b
+  /\ st (for_iter g rec x key len parent body (it :: its) i c b) = SDone.
+Proof. exact for_iter_break_ignores_rest. Qed.
+Print Assumptions c01_break_ignores_remaining_items.
+
+(** ... `continue` ends the iteration, not the loop ... *)
+Theorem c01_continue_goes_on_with_next_item : forall g rec x key len parent body it its i c b,
+  st (block g rec body (loop_ctx x key len parent it i c) b) = SCont ->
+  for_iter g rec x key len parent body (it :: its) i c b =
+  let r := block g rec body (loop_ctx x key len parent it i c) b in
+  for_iter g rec x key len parent body its (i + 1)%Z (cx r) (bf r).
+Proof. exact for_iter_continue_goes_on. Qed.
+Print Assumptions c01_continue_goes_on_with_next_item.
+
+(** ... and a loop never hands a break or continue to what surrounds it. *)
+Theorem c01_loop_absorbs_break_and_continue : forall g rec x key len parent body its i c b,
+  st (for_iter g rec x key len parent body its i c b) <> SBrk /\
+  st (for_iter g rec x key len parent body its i c b) <> SCont.
+Proof. exact for_iter_absorbs_break_continue. Qed.
+Print Assumptions c01_loop_absorbs_break_and_continue.
